@@ -4,8 +4,8 @@ import DS.Gen.SrcCifSym
 
 `DS/Gen/SrcCifSym.lean` is written on every run by `translate/src_cifsym.py` from the current
 `src/diffpy/structure/parsers/p_cif.py`: the method `_parse_space_group_symop_operation_xyz` statement by statement
-(`Src.CifSym.parseSymops`), and `_expandAsymmetricUnit`, `_parseCifBlock`, the attribute initialisations of `__init__` as
-normalised text.  A statement outside the translator's templates yields `parseSymops_untranslatable` instead, and nothing below
+(`Src.CifSym.parseSymops`), `_expandAsymmetricUnit` statement by statement (`Src.CifSym.expandAsymmetricUnit`; its tie to
+`DS.Cif.expand` is `DS.Props.SrcCifExpand`), and `_parseCifBlock`, the attribute initialisations of `__init__` as normalised text.  A statement outside the translator's templates yields `parseSymops_untranslatable` instead, and nothing below
 elaborates -> broken tie.
 
 Proved for every block, every environment (library functions) and every prior parser state:
@@ -68,19 +68,6 @@ theorem parseCifBlock_data : DS.Src.CifSym.parseCifBlock_body =
     ["block = self.ciffile[blockname]", "if '_atom_site_label' not in block: return", "self.stru = Structure()",
      "self.labelindex.clear()", "self.anisotropy.clear()", "self._parse_lattice(block)", "self._parse_atom_site_label(block)",
      "self._parse_atom_site_aniso_label(block)", "self._parse_space_group_symop_operation_xyz(block)", "return"] := rfl
-
-/-- the expansion step, as the model `DS.Cif.expand` reads it: every site expanded with the chosen group, the `j`-th image
-labelled `L_<j+1>` for `j > 0`, carrying the rotated tensor only when anisotropic, images grouped by parent in site order -/
-theorem expandAsymmetricUnit_data : DS.Src.CifSym.expandAsymmetricUnit_body =
-    ["from diffpy.structure.symmetryutilities import ExpandAsymmetricUnit",
-     "corepos = [a.xyz for a in self.stru]",
-     "coreUijs = [a.U for a in self.stru]",
-     "self.eau = ExpandAsymmetricUnit(self.spacegroup, corepos, coreUijs, eps=self.eps)",
-     "for ca, uisotropy in zip(self.stru, self.eau.Uisotropy): if ca.label not in self.anisotropy: ca.anisotropy = not uisotropy self.anisotropy[ca.label] = ca.anisotropy",
-     "newatoms = []",
-     "for i, ca in enumerate(self.stru): eca = [] for j in range(self.eau.multiplicity[i]): a = Atom(ca) a.xyz = self.eau.expandedpos[i][j] if j > 0: a.label += '_' + str(j + 1) if a.anisotropy: a.U = self.eau.expandedUijs[i][j] eca.append(a) newatoms.append(eca)",
-     "self.stru[:] = sum(newatoms, [])",
-     "return"] := rfl
 
 /-- a new parser object has no space group -/
 theorem init_attrs_data : DS.Src.CifSym.init_attrs =
